@@ -1186,6 +1186,8 @@ inductive Reaches : FieldDecl → PyVal → SufPath → FieldDecl → PyVal → 
   | mapVal {kf vf : FieldDecl} {sz : SizeOpts} {kvs : List (PyVal × PyVal)} {k x : PyVal}
       {p : SufPath} {g : FieldDecl} {w : PyVal} :
       (k, x) ∈ kvs → Reaches vf x p g w → Reaches (.mapOf kf vf sz) (.dict kvs) (.val :: p) g w
+  | allOf {fs : List FieldDecl} {f : FieldDecl} {v : PyVal} {p : SufPath} {g : FieldDecl} {w : PyVal} :
+      f ∈ fs → Reaches f v p g w → Reaches (.allOf fs) v p g w
 
 theorem firstBad_spec (O : Oracles) (f : FieldDecl) : ∀ (xs : List PyVal) (n i : Nat) (x : PyVal),
     firstBad O f n xs = some (i, x) →
@@ -1410,10 +1412,37 @@ theorem locate_sound (O : Oracles) : ∀ (f : FieldDecl) (v : PyVal),
   | .struct c fields defaults, v, h => points_here O _ v _ h (by simp only [locate]; split <;> rfl)
   | .anyOf fs, v, h => points_here O _ v _ h (by simp only [locate])
   | .oneOf fs, v, h => points_here O _ v _ h (by simp only [locate])
-  | .allOf fs, v, h => points_here O _ v _ h (by simp only [locate])
+  | .allOf fs, v, h => by
+    simp only [locate]
+    have hall : isOk (validateEach O fs v) = false := by
+      simp only [validate] at h
+      cases he : validateEach O fs v with
+      | ok u => rw [he] at h; simp [isOk] at h
+      | error e => rfl
+    obtain ⟨f, hf, g, w, hr, hw⟩ := locateAll_sound O fs v hall
+    exact ⟨g, w, Reaches.allOf hf hr, hw⟩
   | .notF fs, v, h => points_here O _ v _ h (by simp only [locate])
   | .noneF, v, h => points_here O _ v _ h (by simp only [locate])
   | .anything, v, h => points_here O _ v _ h (by simp only [locate])
+
+theorem locateAll_sound (O : Oracles) : ∀ (fs : List FieldDecl) (v : PyVal),
+    isOk (validateEach O fs v) = false →
+      ∃ f ∈ fs, ∃ g w, Reaches f v (locateAll O fs v).suffix g w ∧ isOk (validate O g w) = false
+  | [], v, h => by simp [validateEach, isOk] at h
+  | f :: fs, v, h => by
+    simp only [locateAll]
+    cases hv : validate O f v with
+    | ok y =>
+      simp only [isOk, ↓reduceIte]
+      have hrest : isOk (validateEach O fs v) = false := by
+        simp only [validateEach, hv, bindE_ok] at h; exact h
+      obtain ⟨f', hf', g, w, hr, hw⟩ := locateAll_sound O fs v hrest
+      exact ⟨f', List.mem_cons_of_mem _ hf', g, w, hr, hw⟩
+    | error e =>
+      have hbad : isOk (validate O f v) = false := by rw [hv]; rfl
+      simp only [isOk, Bool.false_eq_true, ↓reduceIte]
+      obtain ⟨g, w, hr, hw⟩ := locate_sound O f v hbad
+      exact ⟨f, List.mem_cons_self, g, w, hr, hw⟩
 
 theorem locateZip_sound (O : Oracles) : ∀ (fs : List FieldDecl) (xs : List PyVal) (n : Nat) (l : Loc),
     locateZip O n fs xs = some l →
@@ -2070,6 +2099,33 @@ theorem p1SitesD_tops (O : Oracles) (opts : DeserOpts) (ign : Bool)
           have ht := p1SiteD_top O opts ign _ nf.1 nf.2 v s hs
           simp only [hr, if_true, List.map_cons, ht]
           exact congrArg _ ih
+
+
+
+/-! ### multi-field wrappers -/
+
+/-- `AllOf[Array[Integer], Array[Number(maximum=3)]]` given `[1, 7]`: the second option rejects
+    element 1 and the message is ITS message under the AllOf's own name (`allf_1`); AnyOf / OneOf
+    reject at the field itself with the plain shape, NotField value-first; inside an Array the
+    wrapper's path is the element's (`aany_1`) -/
+theorem wrapper_path_examples :
+    let O : Oracles := exOracles
+    let arr (f : FieldDecl) : FieldDecl := .seqOf .list f {}
+    let num3 : FieldDecl := .number { max := some (Q.ofInt 3) }
+    let str : FieldDecl := .string none none none
+    locate O (.allOf [arr (.integer {}), arr num3]) (.list [.int 1, .int 7]) = ⟨[.idx 1], .gotFirst, none⟩ ∧
+    locate O (.allOf [arr (.integer {}), arr num3]) (.int 5) = ⟨[], .gotFirst, none⟩ ∧
+    locate O (.anyOf [.integer {}, str]) (.list []) = ⟨[], .plain, none⟩ ∧
+    locate O (.oneOf [.integer {}, .number {}]) (.int 5) = ⟨[], .plain, none⟩ ∧
+    locate O (.notF [.integer {}]) (.int 1) = ⟨[], .gotFirst, none⟩ ∧
+    locate O (arr (.anyOf [.integer {}, str])) (.list [.int 1, .list [.int 2]]) = ⟨[.idx 1], .plain, none⟩ ∧
+    isOk (validate O (.oneOf [.integer {}, .number {}]) (.int 5)) = false ∧
+    (parseMsg asciiWord "Outer.one: : Got 5; Matched more than one field option".toList).field
+      = some "Outer.one".toList ∧
+    (parseMsg asciiWord "Outer.any: 's' of type str did not match any field option. Valid types are: int, list.".toList)
+      = ⟨some "Outer.any".toList, none,
+         "'s' of type str did not match any field option. Valid types are: int, list.".toList⟩ := by
+  decide
 
 
 end Typedpy.C18
